@@ -118,3 +118,27 @@ Proof.
   apply andb_true_iff in H. destruct H as [H _]. apply andb_true_iff in H. destruct H as [H _].
   rewrite forallb_forall in H. apply H. exact Hin.
 Qed.
+
+(* ---- routing of per-point array parameters ---- *)
+From PB Require Import C16.ArrayParams C16.ArrayParamsProofs.
+
+Lemma array_params_checked : array_params_ok setups array_params = true.
+Proof. vm_compute. reflexivity. Qed.
+
+Theorem table_array_params : forall a, In a array_params -> is_reviewed a = false ->
+  ap_routes a <> [] /\ forall r, In r (ap_routes a) ->
+    exists t, route_dtype setups (ap_two_d a) r = Some t /\ (t = WFloat \/ t = WBool).
+Proof.
+  intros a Hin Hr. apply aparam_routes_impose; [|exact Hr].
+  assert (H := array_params_checked). unfold array_params_ok in H. apply andb_true_iff in H. destruct H as [_ H].
+  rewrite forallb_forall in H. apply H. exact Hin.
+Qed.
+
+Lemma kwargs_loads_checked : kwargs_loads_ok kwargs_loads = true.
+Proof. vm_compute. reflexivity. Qed.
+
+Theorem table_kwargs_loads : forall k, In k kwargs_loads -> kl_use k <> KwUnknown.
+Proof.
+  intros k Hin. assert (H := kwargs_loads_checked). unfold kwargs_loads_ok in H. rewrite forallb_forall in H.
+  specialize (H k Hin). unfold kwload_ok in H. destruct (kl_use k); [discriminate| discriminate | discriminate].
+Qed.
